@@ -143,6 +143,8 @@ val has_ident_key : string -> node list -> bool
 
 val inject_option : node list -> string -> node -> node list
 
+val has_option : node list -> string -> bool
+
 val is_define_component_call : node -> st -> bool
 
 val hook_call : env -> node -> st -> node * st
